@@ -124,9 +124,7 @@ def call(f, *args, **kw):
     """Call the implementation; an exception becomes Exn(class name)."""
     try:
         return canon(f(*args, **kw))
-    except RecursionError:
-        raise
-    except Exception as e:  # noqa
+    except Exception as e:  # noqa  (RecursionError included: no answer for this input is an answer to compare)
         return Exn(type(e).__name__)
 
 
